@@ -239,7 +239,28 @@ func (c *ctx) extraFacts() *leanFile {
 	// (type assertion or type switch whose arm returns the parameter itself)
 	var exempt []string
 	clonesOtherwise := false
-	if fd := c.funcDecl("", "functionArgs"); fd != nil && fd.Type.Params != nil && len(fd.Type.Params.List) == 1 && len(fd.Type.Params.List[0].Names) == 1 {
+	// the function is found by what it is, not by its name: the one top-level function `func(x query) query` whose
+	// last statement is `return x.Clone()`
+	var argFn *ast.FuncDecl
+	nArgFn := 0
+	for _, f := range c.files {
+		for _, dcl := range f.Decls {
+			fd, ok := dcl.(*ast.FuncDecl)
+			if !ok || fd.Recv != nil || fd.Body == nil || len(fd.Body.List) == 0 || fd.Type.Params == nil || len(fd.Type.Params.List) != 1 ||
+				len(fd.Type.Params.List[0].Names) != 1 || fd.Type.Results == nil || len(fd.Type.Results.List) != 1 {
+				continue
+			}
+			if squeeze(c.src(fd.Type.Params.List[0].Type)) != "query" || squeeze(c.src(fd.Type.Results.List[0].Type)) != "query" {
+				continue
+			}
+			last, ok := fd.Body.List[len(fd.Body.List)-1].(*ast.ReturnStmt)
+			if ok && len(last.Results) == 1 && squeeze(c.src(last.Results[0])) == fd.Type.Params.List[0].Names[0].Name+".Clone()" {
+				argFn = fd
+				nArgFn++
+			}
+		}
+	}
+	if fd := argFn; fd != nil && nArgFn == 1 {
 		param := fd.Type.Params.List[0].Names[0].Name
 		returnsParam := func(body []ast.Stmt) bool {
 			for _, st := range body {
